@@ -40,6 +40,8 @@ from checks import alloc_common as A
 C03_WANTED = {"Aligned", "Disjoint", "Intact", "NullJustified", "OomClean", "Returns"}
 C04_WANTED = {"SteadyState", "Envelope"}
 ALIGNS_ALL = [1, 2, 4, 8, 16, 32, 64, 128, 256, 512, 1024, 2048, 4096, 8192]
+PEAK_TOL = 2 << 20        # tolerated growth of the all-live peak over the baseline repetitions (peakrule plans)
+GRAN = 65536
 WINDOW = 1 << 30          # block offsets live in [0, 2^30), the synthetic footprint mapping above
 
 
@@ -68,8 +70,9 @@ def plans(chk, tier, k):
     reps1, base1 = (8, 4) if quick else (16, 8)      # baseline = the first half of the repetitions
     out = []
 
-    def add(threads, reps, base, nblocks, ops, zeroed, realloc, xfree, sizes, aligns, what):
-        out.append({"idx": len(out), "threads": threads, "reps": reps, "base": base, "nblocks": nblocks, "ops": ops,
+    def add(threads, reps, base, nblocks, ops, zeroed, realloc, xfree, sizes, aligns, what, burst=0):
+        out.append({"idx": len(out), "threads": threads, "reps": reps, "base": base, "nblocks": nblocks, "ops": ops, "burst": burst,
+                    "peakrule": bool(burst),
                     "seed": seed + len(out), "zeroed": zeroed, "realloc": realloc, "xfree": xfree,
                     "sizes": sizes, "aligns": aligns, "what": what})
 
@@ -90,15 +93,18 @@ def plans(chk, tier, k):
     # history length: few live blocks of the largest non-direct classes, many repetitions - whatever is
     # lost per repetition adds up against an envelope that only knows the (small) peak demand
     large = [x for x in small if x >= 30000] or small[-4:]
-    for threads in (4, 2):
+    for threads in (8, 4, 2):
         add(threads, 30 if quick else 80, 2, 4, 60, 20, 20, 1, large, [16, 64],
             "%d threads, few large blocks, long history (memory held vs. peak demand)" % threads)
+    # many threads freeing at the same moment (all free their neighbour's blocks right after a barrier)
+    add(8, 48 if quick else 120, 8 if quick else 20, 12, 0, 10, 0, 1, large, [16],
+        "8 threads: one keeps the allocator busy, seven free their neighbour's blocks in tight bursts, long history", burst=1)
     return out
 
 
 def script_line(p):
-    return ("run idx=%d threads=%d reps=%d nblocks=%d ops=%d seed=%d zeroed=%d realloc=%d xfree=%d sizes=%s aligns=%s" % (
-        p["idx"], p["threads"], p["reps"], p["nblocks"], p["ops"], p["seed"], p["zeroed"], p["realloc"], p["xfree"],
+    return ("run idx=%d threads=%d reps=%d nblocks=%d ops=%d seed=%d zeroed=%d realloc=%d xfree=%d burst=%d sizes=%s aligns=%s" % (
+        p["idx"], p["threads"], p["reps"], p["nblocks"], p["ops"], p["seed"], p["zeroed"], p["realloc"], p["xfree"], p.get("burst", 0),
         ",".join(map(str, p["sizes"])), ",".join(map(str, p["aligns"]))))
 
 
@@ -152,7 +158,13 @@ def to_trace(plan, raw, runno):
     # SteadyState is only judged on single-threaded runs: for the others every repetition counts as
     # baseline (AllocTrace reports at most 6 violating steps per run - steps that would be filtered
     # out afterwards must not use that budget up)
-    base_reps = plan["base"] if plan["threads"] == 1 else plan["reps"] + 1
+    # Exception (plans with "peakrule", the burst plan): the SAME workload is repeated with all blocks
+    # live at the first barrier of every repetition, so the footprint at that barrier must not keep
+    # growing: SteadyState is fed with fp = that peak and hi = peak + PEAK_TOL - Gran, i.e. it says
+    # "the peak of a later repetition is at most PEAK_TOL above the highest peak of the baseline ones"
+    # (blocks that a free loses for good make the peak climb repetition after repetition).
+    peakrule = plan["threads"] > 1 and plan.get("peakrule")
+    base_reps = plan["base"] if (plan["threads"] == 1 or peakrule) else plan["reps"] + 1
     out = [{"ev": "reset", "run": runno, "plan": plan["idx"], "c04": True, "base": base_reps, "real": True}]
     if reset is None:
         out.append({"ev": "crash", "why": "no run started"})
@@ -204,7 +216,10 @@ def to_trace(plan, raw, runno):
         cur = fp
         high = max(high, fp)
         if m["ev"] == "rep":
-            evl.append({"ev": "rep", "fp": fp, "hi": high})
+            if peakrule:
+                evl.append({"ev": "rep", "fp": high, "hi": high + PEAK_TOL - GRAN})
+            else:
+                evl.append({"ev": "rep", "fp": fp, "hi": high})
             high = fp
         items.append((m["g"], evl))
     items.sort(key=lambda x: x[0])
@@ -274,7 +289,7 @@ def run_part(chk, tier, builds=None):
             run = runs[b["run_index"]]
             p, raw, info = metas[run[0]["run"]]
             inv = [i for i in b["inv"] if i in wanted]
-            if p["threads"] > 1:
+            if p["threads"] > 1 and not p.get("peakrule"):
                 inv = [i for i in inv if i != "SteadyState"]
             # one report per run and invariant (the replay file carries the first rejected event)
             inv = [i for i in inv if (b["run_index"], i) not in seen]
